@@ -442,6 +442,98 @@ def loop_step(repo, spec):
         f"{ast.unparse(loop.iter)[:60]}: " + "; ".join(src) + f"  [{len(slices)} slices, all [{lo}:{hi}]]"
 
 
+# ---------------------------------------------------------------------------------------------------------------
+# effect traces: which collaborator calls a method makes, in which order, under which condition, and how it moves
+# its counters (`tell` of the evolution-strategy emitters: C10, C19)
+
+EFFECT_CALLS = {"self._ranker.rank": "rank", "self._opt.tell": "optTell", "self._grad_opt.step": "gradStep",
+                "self.archive.sample_elites": "sampleElite", "self._grad_opt.reset": "gradReset",
+                "self._opt.reset": "optReset", "self._ranker.reset": "rankerReset"}
+EFFECT_TESTS = {"self._opt.check_stop(ranking_values[indices])": ("stop", "checkStop"),
+                "self._check_restart(new_sols)": ("fires", None), "num_parents > 0": ("npPos", None)}
+
+EFFECT_SPECS = [
+    dict(prefix="esTell", file="ribs/emitters/_evolution_strategy_emitter.py", func="EvolutionStrategyEmitter.tell"),
+    dict(prefix="gaeTell", file="ribs/emitters/_gradient_arborescence_emitter.py",
+         func="GradientArborescenceEmitter.tell"),
+]
+EFFECT_VARS = [("stop", "Bool"), ("fires", "Bool"), ("npPos", "Bool")]
+EFFECT_COUNTERS = {"self._itrs": ("Itrs", "itrs", None), "self._restarts": ("Restarts", "restarts", "incRestarts")}
+
+
+def _calls_in(node):
+    return [call_name(n.func) for n in ast.walk(node) if isinstance(n, ast.Call)]
+
+
+def effects(repo, spec):
+    tree = ast.parse(open(os.path.join(repo, spec["file"])).read())
+    func = find_function(tree, spec["func"])
+    src = []
+
+    def test_expr(node, eff):
+        """Lean Bool of a test; the calls it makes are appended to `eff` (evaluation order, `or` short-circuits are
+        read as both evaluated: `check_stop` has no effect on the emitter)"""
+        text = ast.unparse(node)
+        if text in EFFECT_TESTS:
+            var, name = EFFECT_TESTS[text]
+            if name:
+                eff.append(f'["{name}"]')
+            return var
+        if isinstance(node, ast.BoolOp):
+            parts = [test_expr(v, eff) for v in node.values]
+            return "(" + (" || " if isinstance(node.op, ast.Or) else " && ").join(parts) + ")"
+        raise Untranslatable(f"test {text[:60]}")
+
+    def block(stmts, counters):
+        eff = []
+        for st in stmts:
+            line = " ".join(ast.unparse(st).split())
+            if isinstance(st, ast.Expr) and isinstance(st.value, ast.Constant):
+                continue
+            if isinstance(st, ast.If) and len(st.body) == 1 and isinstance(st.body[0], ast.Raise) and not st.orelse:
+                src.append(f"[guard: if {ast.unparse(st.test)[:50]}: raise]")
+                continue
+            if isinstance(st, ast.AugAssign) and isinstance(st.op, ast.Add) and ast.unparse(st.target) in EFFECT_COUNTERS \
+                    and isinstance(st.value, ast.Constant) and st.value.value == 1:
+                key = ast.unparse(st.target)
+                counters[key] = f"({counters[key]} + 1)"
+                if EFFECT_COUNTERS[key][2]:
+                    eff.append(f'["{EFFECT_COUNTERS[key][2]}"]')
+                src.append(line)
+                continue
+            if isinstance(st, (ast.Assign, ast.Expr)):
+                if isinstance(st, ast.Assign):
+                    for t in st.targets:
+                        names = t.elts if isinstance(t, ast.Tuple) else [t]
+                        if not all(isinstance(n, ast.Name) for n in names):
+                            raise Untranslatable(f"assignment to {ast.unparse(t)[:40]} (state we do not track)")
+                known = [EFFECT_CALLS[c] for c in _calls_in(st.value) if c in EFFECT_CALLS]
+                if isinstance(st, ast.Expr) and not known:
+                    raise Untranslatable(f"call statement {line[:60]}")
+                for name in known:
+                    eff.append(f'["{name}"]')
+                if known:
+                    src.append(line[:70])
+                continue
+            if isinstance(st, ast.If):
+                c = test_expr(st.test, eff)
+                c1, c2 = dict(counters), dict(counters)
+                e1, e2 = block(st.body, c1), block(st.orelse, c2)
+                for k in counters:
+                    if c1[k] != c2[k]:
+                        counters[k] = f"(if {c} then {c1[k]} else {c2[k]})"
+                    else:
+                        counters[k] = c1[k]
+                eff.append(f"(if {c} then {' ++ '.join(e1) if e1 else '[]'} else {' ++ '.join(e2) if e2 else '[]'})")
+                src.append(f"if {ast.unparse(st.test)[:70]} …")
+                continue
+            raise Untranslatable(f"statement {type(st).__name__} at line {st.lineno}")
+        return eff
+    counters = {k: v[1] for k, v in EFFECT_COUNTERS.items()}
+    eff = block(func.body, counters)
+    return counters, " ++ ".join(eff) if eff else "[]", func.lineno, "; ".join(src)
+
+
 FALLBACK = {"Nat": "0", "E": "E.bad", "Bool": "false", "Option E": "none", "Option Nat": "none"}
 
 
@@ -490,6 +582,24 @@ def translate(repo, out_path):
         lines.append("")
         recs.append({"name": spec["prefix"], "file": spec["file"], "func": spec["func"], "line": line, "ok": ok,
                      "why": why, "python": src[:400], "lean": "; ".join(f"{o} := {outs[o][0]}" for o in names)})
+    for spec in EFFECT_SPECS:
+        ebind = " ".join(f"({v} : {t})" for v, t in EFFECT_VARS)
+        try:
+            counters, eff, line, src = effects(repo, spec)
+            ok, why = True, ""
+        except (Untranslatable, SyntaxError, OSError, StopIteration, KeyError, AttributeError) as e:
+            counters, eff, line, src, ok, why = {k: "0" for k in EFFECT_COUNTERS}, "[]", 0, "", False, \
+                f"{type(e).__name__}: {e}"
+        lines.append(f"/-- `{spec['file']}:{spec['func']}`" + (f" line {line}, counters and collaborator calls in call "
+                                                                f"order: `{src[:500]}`" if ok else
+                                                                f" -- TRANSLATION FAILED: {why}") + " -/")
+        for key, (oname, var, _) in EFFECT_COUNTERS.items():
+            lines.append(f"def {spec['prefix']}{oname} {ebind} ({var} : Nat) : Nat :=\n  {counters[key]}")
+        lines.append(f"def {spec['prefix']}Effects {ebind} : List String :=\n  {eff}")
+        lines.append("")
+        recs.append({"name": spec["prefix"], "file": spec["file"], "func": spec["func"], "line": line, "ok": ok,
+                     "why": why, "python": src[:400], "lean": f"Effects := {eff}; " + "; ".join(
+                         f"{EFFECT_COUNTERS[k][0]} := {v}" for k, v in counters.items())})
     lines.append("end Pyribs.GenC")
     text = "\n".join(lines) + "\n"
     old = open(out_path).read() if os.path.exists(out_path) else None
